@@ -31,3 +31,18 @@ contract(
     ensures=["result is None"],
     modifies=[],
 )
+
+
+# progress_bar: the items handed on are the items received, in their order (with the tqdm wrapper: assumed contract of
+# tqdm); ValueError exactly for an unknown progress option (C19); tqdm not installed = no progress bar
+contract(
+    'bycycle.group.utils.progress_bar',
+    cases=[dict(label='progress=%s' % lab, params={'iterable': 'any', 'progress': pt, 'n_to_run': 'int', 'pbar_desc': 'str'})
+           for lab, pt in (('None', 'none'), ('tqdm', ('const', 'tqdm')), ('tqdm.notebook', ('const', 'tqdm.notebook')),
+                           ('other', 'str'))],
+    case_requires={'other': ["progress != 'tqdm' and progress != 'tqdm.notebook'"]},
+    raises={'ValueError': "progress is not None and progress != 'tqdm' and progress != 'tqdm.notebook'"},
+    ensures=["result is iterable"],
+    modifies=[],
+    result=lambda E, env: env['iterable'],
+)
